@@ -32,7 +32,7 @@ SHRINK_LISTS = ["stream"]
 SHRINK_SPECS = []
 KEY_POOL = ["extra", "entries", "data", "type", "sub:type", "center", "atleast", "name", "bins:name", "values:name", "w", "v",
             "version", "bins:type", "nanflow", "sum", "mean"]
-RETYPE = [None, True, 3.5, "zz", [], {}, -1.0, "nan"]
+RETYPE = [None, True, 3.5, "zz", [], {}, -1.0, "nan", "1.0", " 7 ", "1e3", "Infinity"]
 TYPES = ["Count", "Sum", "Average", "Deviate", "Minimize", "Maximize", "Bag", "Bin", "SparselyBin", "CentrallyBin",
          "IrregularlyBin", "Stack", "Fraction", "Select", "Categorize", "Label", "UntypedLabel", "Index", "Branch"]
 
@@ -192,6 +192,17 @@ WARM_SPECS = [
 ]
 
 
+def _mclass(m):
+    """class of a mutation: the kind of change and, where one is set, the replacement value"""
+    desc, path, action, arg = m
+    kind = desc.split(" at ")[0].split(" of ")[0]
+    kind = " ".join(w for w in kind.split()[:2] if not w.isdigit())
+    val = ""
+    if action in ("set", "seti") and isinstance(arg, tuple):
+        val = repr(arg[1]) if not isinstance(arg[1], (dict, list)) or not arg[1] else type(arg[1]).__name__
+    return kind + "|" + val
+
+
 def expand_ops(op, py):
     """'mutations' expands into load / check / drop triples over the sampled single-point mutations"""
     if op[0] != "mutations":
@@ -200,10 +211,22 @@ def expand_ops(op, py):
     ms = [m for m in enumerate_mutations(doc) if not excluded(m, doc)]
     rng = random.Random(op[2])
     if len(ms) > op[3]:
-        # a random sample, plus the few mutations that name an unknown primitive (always kept)
+        # a random sample, plus the few mutations that name an unknown primitive, plus one mutation of every class
+        # (kind of change x replacement value), so that no class depends on the luck of the sample
         keep = [m for m in ms if m[0].startswith("unknown type")]
-        ms = rng.sample(ms, op[3])
-        ms += [m for m in keep if m not in ms]
+        classes = {}
+        for m in ms:
+            classes.setdefault(_mclass(m), []).append(m)
+        picked = rng.sample(ms, op[3])
+        for cls in sorted(classes):
+            picked.append(rng.choice(classes[cls]))
+        seen, out_ms = set(), []
+        for m in picked + keep:
+            key = (m[0],)
+            if key not in seen:
+                seen.add(key)
+                out_ms.append(m)
+        ms = out_ms
     out = []
     for i, m in enumerate(ms):
         d = apply_mutation(doc, m)
